@@ -40,7 +40,8 @@ fn v6_dsts() -> [Ipv6Addr; 3] {
 pub fn qspec_strategy(max_drops: u32, allow_all_lost: bool) -> impl Strategy<Value = QSpec> {
     (
         (proptest::bool::weighted(0.3), 0u8..3, any::<u8>()),
-        prop_oneof![4 => Just(0u16), 3 => 0u16..400, 1 => 400u16..1500],
+        // >= 2500 ms makes an *earlier* transmission answer after two retransmissions went out
+        prop_oneof![8 => Just(0u16), 6 => 0u16..400, 2 => 400u16..1500, 1 => 2500u16..4000],
         prop_oneof![6 => Just(0u8), 1 => Just(1u8), 1 => Just(2u8)],
         proptest::bool::weighted(0.08),
         proptest::bool::weighted(0.08),
@@ -118,7 +119,7 @@ impl C07Conc {
         };
         // the server's own back-off (0.8 s, then x1.5..2.5 per retry, at most 4 transmissions) bounds
         // the time to a SERVFAIL at well under 60 s
-        let slow = c.queries.iter().any(|q| q.drop_all || q.drop_mask.count_ones() >= 3);
+        let slow = c.queries.iter().any(|q| q.drop_all || q.drop_mask.count_ones() >= 3 || q.delay_ms >= 2000);
         let wait = if slow { Duration::from_secs(60) } else { Duration::from_secs(12) };
         let results: Vec<QResult> = std::thread::scope(|s| {
             let hs: Vec<_> = c
@@ -344,7 +345,18 @@ pub fn run_c07(ctx: &Ctx) {
     for listener in 0..4u8 {
         let case = ConcCase {
             listener,
-            queries: vec![plain(false, 0, 0), plain(false, 0, 1), plain(false, 0, 2), plain(false, 0, 3), plain(true, 0, 0), plain(true, 1, 1), plain(true, 2, 2)],
+            queries: vec![
+                plain(false, 0, 0),
+                plain(false, 0, 1),
+                plain(false, 0, 2),
+                plain(false, 0, 3),
+                plain(true, 0, 0),
+                plain(true, 1, 1),
+                plain(true, 2, 2),
+                // the first transmission is answered only after two retransmissions went out
+                QSpec { delay_ms: 3200, ..plain(false, 0, 1) },
+                plain(false, 0, 2),
+            ],
         };
         let out = exec_one(&prop, &case);
         ctx.record(prop.sub(), &case, &out);
